@@ -394,6 +394,10 @@ func runC08(c *Ctx) {
 		c.Check(K(f.Name, "returns channel"), f.Pos(), nret >= 1, "FindProvidersAsync returns a channel variable", "none found")
 	}
 
+	// R3 (cont.) the lookup's follow-up stage honours the stop function
+	c.Rule("R3")
+	c02R4(c)
+
 	// R5 dual merge
 	c.Rule("R5")
 	{
